@@ -5,6 +5,7 @@ package main
 // (almost) every public kind exists; mutation, re-encoding and hostile-field generators.
 
 import (
+	"math/big"
 	"bytes"
 	"encoding/hex"
 	"encoding/json"
@@ -299,6 +300,22 @@ func (l *lab) mutants(k labKind, base []byte) []labMutant {
 		}
 		s[3] ^= 0x40
 		tx.Signatures[0].Signed = s
+		return true
+	})
+	// ECDSA malleability: (r, s) and (r, N−s) verify under the same key for the same message; a verifier that does not
+	// insist on the lower s admits the second form — other bytes, another transaction hash, the same signed content
+	add("sig.s-negated", "sig", func(tx *action.SignedTx) bool {
+		sg := tx.Signatures[0]
+		if sg.Signer.KeyType != keys.SECP256K1 || len(sg.Signed) != 64 {
+			return false
+		}
+		n, _ := new(big.Int).SetString("fffffffffffffffffffffffffffffffebaaedce6af48a03bbfd25e8cd0364141", 16)
+		sv := new(big.Int).SetBytes(sg.Signed[32:])
+		sv.Sub(n, sv)
+		out := append([]byte{}, sg.Signed[:32]...)
+		sb := sv.Bytes()
+		out = append(out, append(make([]byte, 32-len(sb)), sb...)...)
+		tx.Signatures[0].Signed = out
 		return true
 	})
 	add("sig.pubkey-substituted", "sig", func(tx *action.SignedTx) bool { tx.Signatures[0].Signer = l.Attacker.Pub; return true })
